@@ -336,7 +336,7 @@ def _imap_guarded(pool, check, si, space, chunks, res, log):
     idx = 0
     while True:
         try:
-            out = it.next(timeout=CHUNK_TIMEOUT * getattr(space, "slow", 1))
+            out = it.next(timeout=CHUNK_TIMEOUT * getattr(space, "slow", 1) * (4 if os.environ.get("VERIF_TIER_RUNNING") == "thorough" else 1))
         except StopIteration:
             return
         except multiprocessing.TimeoutError:
